@@ -1,12 +1,14 @@
 package scen
 
 import (
+	"errors"
 	stdtls "crypto/tls"
 	"fmt"
 	"time"
 
 	tls "github.com/refraction-networking/utls"
 	"github.com/refraction-networking/utls/zz_verif/simnet"
+	"github.com/refraction-networking/utls/zz_verif/simrand"
 	"github.com/refraction-networking/utls/zz_verif/simrt"
 )
 
@@ -16,7 +18,7 @@ func init() {
 	Register("C14", &Info{
 		Run:   runC14,
 		Quick: 4000, Thor: 400000,
-		Rule: "a world = a history of 1-2 connections of one fingerprint (HelloGolang, ticket/PSK-capable parrots, any parrot by stratum) to a server presenting one fixture chain (valid, wrong name, untrusted root, expired, not yet valid, short-lived) at TLS 1.2 or 1.3, each connection with its own Config (ServerName, InsecureServerNameToVerify in {unset, *, matching, other}, InsecureSkipTimeVerify, InsecureSkipVerify) and its own client clock (Config.Time offset; jumps of days/weeks/decades between the connections) over a shared session cache; oracle: independent truth table - a handshake succeeds iff InsecureSkipVerify or (chain trusted and validity period ok at the client's time unless InsecureSkipTimeVerify and leaf matches the verification name unless it is *); a second (possibly resumed) connection may never succeed where a fresh verification under its own Config and clock would fail; non-trivial = verification actually ran (InsecureSkipVerify unset); distinct = (fingerprint, cert, both configs, clock offsets, version)",
+		Rule: "a world = a history of 1-2 connections of one fingerprint (HelloGolang, ticket/PSK-capable parrots, any parrot by stratum) to a server presenting one fixture chain (valid, wrong name, untrusted root, expired, not yet valid, short-lived) at TLS 1.2 or 1.3, each connection with its own Config (ServerName, InsecureServerNameToVerify in {unset, *, matching, other}, InsecureSkipTimeVerify, InsecureSkipVerify) and its own client clock (Config.Time offset; jumps of days/weeks/decades between the connections) over a shared session cache; ECH dimension (TLS 1.3, ECH-capable fingerprints): no ECH, an accepting server (verification against the configured name as usual) or a rejecting server (the chain must verify against the config's public name: then and only then the client returns ECHRejectionError), with a certificate valid for every name or for the public name only; oracle: independent truth table - a handshake succeeds iff InsecureSkipVerify or (chain trusted and validity period ok at the client's time unless InsecureSkipTimeVerify and leaf matches the verification name unless it is *); a second (possibly resumed) connection may never succeed where a fresh verification under its own Config and clock would fail; non-trivial = verification actually ran (InsecureSkipVerify unset); distinct = (fingerprint, cert, both configs, clock offsets, version)",
 		Assumptions: []string{"trust/validity/name ground truth comes from how the fixtures were generated (tools/genfix), not from x509.Verify",
 			"ECH strata (accepted / rejected verifies against the public name) are part of the C15 scenario"},
 		Real: []string{"utls client from /repo", "utls or std server"},
@@ -45,6 +47,7 @@ var certTruths = map[string]certTruth{
 	"notyet":     {true, d(2050, 1, 1), d(2090, 1, 1), stdNames},
 	"untrusted":  {false, d(1999, 6, 1), d(2090, 1, 1), stdNames},
 	"shortlived": {true, d(1999, 6, 1), d(2000, 1, 8), stdNames},
+	"publiconly": {true, d(1999, 6, 1), d(2090, 1, 1), []string{"public.ech.test"}},
 }
 
 func nameMatches(names []string, host string) bool {
@@ -152,11 +155,48 @@ func runC14(c *Ctx) {
 		}
 		cfgs[i] = drawVerifyCfg(ch, prev)
 	}
+	// ECH dimension: no ECH, accepted (verified against the configured name as usual), rejected
+	// (verified against the config's public name, then ECHRejectionError)
+	echMode := "none"
+	var echList []byte
+	if c.Run%4 != 3 && ch.Bool(30, "ech") {
+		echIDs := []IDInfo{{"Golang", tls.HelloGolang}, {"Chrome_133", tls.HelloChrome_133}, {"Firefox_120", tls.HelloFirefox_120}, {"Chrome_120", tls.HelloChrome_120}}
+		idi = echIDs[ch.Pick(len(echIDs), "ech-id")]
+		echMode = []string{"accept", "reject"}[ch.Pick(2, "ech-mode")]
+		srvMax = tls.VersionTLS13
+		nconn = 1
+		cfgs = cfgs[:1]
+		if ch.Bool(40, "ech-publiconly") {
+			certName = "publiconly"
+			ct = certTruths[certName]
+		}
+		if echMode == "reject" {
+			cfgs[0].toVerify = "" // the override's interaction with a rejected offer is not specified
+			cfgs[0].skipVerify = false // crypto/tls documents that a rejected offer is verified regardless; the property claims nothing there
+		}
+	}
 	w := c.NewWorld(simrt.Config{})
 	cache := tls.NewLRUClientSessionCache(8)
 	scfg := &tls.Config{Certificates: []tls.Certificate{Cert(certName).U}, MaxVersion: srvMax}
 	stdcfg := &stdtls.Config{Certificates: []stdtls.Certificate{Cert(certName).S}, MaxVersion: srvMax, MinVersion: stdtls.VersionTLS10}
-	c.R.Class = fmt.Sprintf("%s cert=%s max=%x peer=%s", idi.Name, certName, srvMax, peerName(peer))
+	if echMode != "none" {
+		keyRand := simrand.NewStream(ch.U64("ech-keys"))
+		good, err := buildECH(keyRand, 7, "public.ech.test", 32, [][2]uint16{{1, 1}})
+		if err != nil {
+			c.R.Harness = "ech setup: " + err.Error()
+			return
+		}
+		other, _ := buildECH(keyRand, 8, "public.ech.test", 32, [][2]uint16{{1, 1}})
+		echList = good.list
+		sk := good
+		if echMode == "reject" {
+			sk = other
+		}
+		scfg.EncryptedClientHelloKeys = []tls.EncryptedClientHelloKey{{Config: sk.cfg, PrivateKey: sk.priv, SendAsRetry: true}}
+		stdcfg.EncryptedClientHelloKeys = []stdtls.EncryptedClientHelloKey{{Config: sk.cfg, PrivateKey: sk.priv, SendAsRetry: true}}
+		c.Probe("ech-" + echMode)
+	}
+	c.R.Class = fmt.Sprintf("%s cert=%s max=%x peer=%s ech=%s", idi.Name, certName, srvMax, peerName(peer), echMode)
 	for i, v := range cfgs {
 		v := v
 		c.R.Class += fmt.Sprintf(" [%s]", v)
@@ -165,8 +205,28 @@ func runC14(c *Ctx) {
 			Time: func() time.Time { return time.Now().Add(v.clockOff) }}
 		sp := &ConnSpec{Name: fmt.Sprintf("c%d", i), ID: idi.ID, CCfg: cfg, Peer: peer, SCfg: scfg, StdCfg: stdcfg, Payload: [][]byte{[]byte("ping")},
 			Setup: func(l *simnet.Link) { l.Frag = ch.Bool(25, "frag") }}
+		if echMode != "none" {
+			cfg.EncryptedClientHelloConfigList = echList
+			cfg.MinVersion = tls.VersionTLS13
+		}
 		o := RunConn(c, w, sp)
 		want, why := shouldVerify(ct, v)
+		if echMode == "reject" {
+			pv := v
+			pv.serverName = "public.ech.test"
+			want, why = shouldVerify(ct, pv)
+			var rej *tls.ECHRejectionError
+			isRej := errors.As(o.CErr, &rej)
+			c.R.NonTrivial = !v.skipVerify
+			if o.CDone {
+				c.Violate("ech-rejected-but-handshake-succeeded", "%s", c.R.Class)
+			} else if want && !isRej {
+				c.Violate(fmt.Sprintf("rejected-certificate-that-must-pass cert=%s ech=reject", certName), "%s: certificate verifies against the public name (%s) but the client returned %v instead of ECHRejectionError", c.R.Class, why, o.CErr)
+			} else if !want && isRej {
+				c.Violate(fmt.Sprintf("accepted-certificate-that-must-fail reason=%q ech=reject", why), "%s: the client reported the ECH rejection (and its retry configs) although the certificate does not verify against the public name: %s", c.R.Class, why)
+			}
+			break
+		}
 		if !v.skipVerify {
 			c.R.NonTrivial = true
 		}
